@@ -2,6 +2,7 @@ package icmp
 
 import (
 	"context"
+	"errors"
 	"net"
 	"sync"
 	"time"
@@ -9,6 +10,12 @@ import (
 	"github.com/postalsys/muti-metroo/internal/crypto"
 	"github.com/postalsys/muti-metroo/internal/identity"
 )
+
+// ErrSessionClosed is returned by Encrypt and Decrypt once the session has
+// been closed. Close drops the session key; without this check an echo reply
+// still in flight in waitForReply would fall into the "no session key" branch
+// and leave the exit unencrypted.
+var ErrSessionClosed = errors.New("ICMP session closed")
 
 // SessionState represents the state of an ICMP session.
 type SessionState int
@@ -209,6 +216,10 @@ func (s *Session) Encrypt(plaintext []byte) ([]byte, error) {
 	s.mu.RLock()
 	defer s.mu.RUnlock()
 
+	if s.closed {
+		return nil, ErrSessionClosed
+	}
+
 	if s.SessionKey == nil {
 		return plaintext, nil
 	}
@@ -223,6 +234,10 @@ func (s *Session) Encrypt(plaintext []byte) ([]byte, error) {
 func (s *Session) Decrypt(ciphertext []byte) ([]byte, error) {
 	s.mu.RLock()
 	defer s.mu.RUnlock()
+
+	if s.closed {
+		return nil, ErrSessionClosed
+	}
 
 	if s.SessionKey == nil {
 		return ciphertext, nil
